@@ -1,7 +1,7 @@
 (* C01/Props.v — property-level theorems of C01 over the Cluster model (coq/theories/Cluster/Model.v). *)
 From Coq Require Import List ZArith Bool Lia.
 From BLB Require Import Gen.Consts C01.Model Cluster.Proofs Cluster.Frame Cluster.Inv Cluster.Window Cluster.Attempts C01.Witness.
-From BLB Require Import Cluster.Sched Cluster.Order Cluster.Contain Cluster.Visible Cluster.Lower C01.Ladder.
+From BLB Require Import Cluster.Sched Cluster.Order Cluster.Contain Cluster.Visible Cluster.Lower Cluster.Prov Cluster.Cand Cluster.Crash C01.Ladder.
 Import ListNotations.
 Open Scope Z_scope.
 
@@ -207,3 +207,31 @@ Theorem host_version_window_lower_partial : forall evs,
   forall tk dv H h r, tget (s_dtr st) tk = Some (dv, H) -> In h H -> rget (s_reps st) (h, tk) = Some r -> dv <= r_ver r.
 Proof. exact (lower_window 4). Qed.
 Print Assumptions host_version_window_lower_partial.
+
+(* ------------------------------------------------------------------ rung 5: crashes in the middle of PullTract *)
+(* Level 5 (Sched.ok_run5) is level 4 plus the crash event (delivery mode 6 of a parked PullTract): the tractserver
+   dies after it created the local file and recorded the pulled version but before the data arrived, so an EMPTY copy
+   that already carries the version stays behind, the curator sees an RPC error and every request parked at that
+   server fails (restart).  The crash is admissible when it is not a superseded pull (Sched.stale_pull) and when
+   Sched.crash_safe holds: the target is not a durable host and nobody counts it as pulled at that version, i.e.
+   there is no completed pull to it whose reply is still under way and no task that has consumed such a reply.
+   Both side conditions say that the PullTract is not a LATE RE-PULL of a copy that is already complete at the
+   requested version, which is the trigger of F21. *)
+
+(* [FULL] c01_acked_write_visible_with_crashed_pulls - along every schedule of level 5 of Sched.ok_run5 that is the whole fault alphabet of the property which is lost replies requests executed twice requests failed without executing tractserver restarts leader changes and crashes in the middle of PullTract together with re-replication fixVersion delayed replies and stale client caches every byte of every blob read at any durable host at the durable version is the byte of the newest write covering it whenever that write was acknowledged and zero if no write attempt ever covered it. The only carve-out is the late re-pull of F21 in its two forms - a superseded PullTract taking effect which is Sched.stale_pull and a crash inside a PullTract for a copy that a completed pull already delivered at that version which is the negation of Sched.crash_safe. The proof counts a copy one version ahead as a candidate host only if it is a durable host or a completed pull put it there and shows that pull sources are durable hosts *)
+Theorem c01_acked_write_visible_with_crashed_pulls : forall evs,
+  ok_run5 init_state evs = true ->
+  forall blob tract host p, 0 <= p < TL -> vis_ok (run_state init_state evs) blob tract host p = true.
+Proof. exact acked_visible_run5. Qed.
+Print Assumptions c01_acked_write_visible_with_crashed_pulls.
+
+Example c01_acked_write_visible_with_crashed_pulls_nonvacuous :
+  ok_run5 init_state l5_ops && negb (ok_run 4 init_state l5_ops) &&
+  existsb (fun ev => (hd 0 ev =? 7) && (nth 1 ev 0 =? 6)) l5_ops &&
+  (2 <=? acked_count (run_state init_state l5_ops)) && (2 <=? max_version (run_state init_state l5_ops)) = true.
+Proof. vm_compute. reflexivity. Qed.
+
+(* [FULL] ladder_levels_nested - every schedule of a level up to 4 is a schedule of level 5 so the theorem above contains the four rungs below it *)
+Theorem ladder_levels_nested : forall L evs, L <= 4 -> ok_run L init_state evs = true -> ok_run5 init_state evs = true.
+Proof. intros L evs. apply ok_run_5. Qed.
+Print Assumptions ladder_levels_nested.
